@@ -1,0 +1,17 @@
+//go:build verif
+// +build verif
+
+package replication
+
+import "fmt"
+
+// VerifParseGTIDSet exposes the per-flavor GTID-set parser registered in
+// gtidSetParsers to the verification harness (build tag "verif" only).  It goes
+// through the registry, so it also exercises the registration itself.
+func VerifParseGTIDSet(flavor, s string) (GTIDSet, error) {
+	parser := gtidSetParsers[flavor]
+	if parser == nil {
+		return nil, fmt.Errorf("parse error: unknown GTIDSet flavor %#v", flavor)
+	}
+	return parser(s)
+}
